@@ -32,6 +32,7 @@ def native_check(thm, inputs, hooks=None):
     if hooks and hooks.get("setup"):
         hooks["setup"](env)
     rec, undo = _record_ghost_calls(thm)
+    disarm = _arm_timeout(int(thm.options.get("native_timeout_s", NATIVE_TIMEOUT_S)))
     try:
         result = eval(thm.options.get("native_body", thm.body), env)
         outcome = ("return", result, None)
@@ -40,6 +41,7 @@ def native_check(thm, inputs, hooks=None):
             raise
         outcome = ("raise", None, ex)
     finally:
+        disarm()
         undo()
     env.update(rec)
     env["result"] = outcome[1]
@@ -77,6 +79,34 @@ def native_check(thm, inputs, hooks=None):
         return {"status": "violation", "case": None, "clause": "cases_exhaustive",
                 "observed": "no contract case applies to this input"}
     return {"status": "ok"}
+
+
+NATIVE_TIMEOUT_S = 60
+
+
+class DidNotTerminate(Exception):
+    """the real code ran longer than the native time limit on this input (every function under contract here finishes
+    in well under a second on the pinned tree): reported like any other unexpected exception"""
+
+
+def _arm_timeout(seconds):
+    import signal
+    import threading
+    if threading.current_thread() is not threading.main_thread() or not hasattr(signal, "SIGALRM"):
+        return lambda: None
+
+    def on_alarm(signum, frame):
+        raise DidNotTerminate(f"no result after {seconds} s")
+    try:
+        old = signal.signal(signal.SIGALRM, on_alarm)
+        signal.alarm(seconds)
+    except ValueError:
+        return lambda: None
+
+    def disarm():
+        signal.alarm(0)
+        signal.signal(signal.SIGALRM, old)
+    return disarm
 
 
 def _record_ghost_calls(thm):
